@@ -75,13 +75,23 @@ def d_die(rng: random.Random, f: F, bad: bool = False):
     W, H = rng.randint(5, 9), rng.randint(5, 9)
     regs = []
     x = 0
-    for tag in rng.sample(["#", "BRAM", "DSP"], rng.randint(1, 3)):
+    h0 = rng.randint(1, H - 1)
+    tags = ["#", "BRAM", "DSP", "#", "LUT", "URAM"]
+    while x < W and len(regs) < 4:      # a row of touching regions along the bottom border
         w = rng.randint(1, 3)
-        h = rng.randint(1, H)
         if x + w > W:
             break
-        regs.append([fl((x + F(w, 2)) * u), fl(F(h, 2) * u), fl(w * u), fl(h * u), tag])
-        x += w            # regions touch each other
+        h = rng.randint(1, h0)
+        regs.append([fl((x + F(w, 2)) * u), fl(F(h, 2) * u), fl(w * u), fl(h * u), tags[len(regs)]])
+        x += w
+    x = W
+    while x > 0 and len(regs) < 7:      # and one along the top border, from the right
+        w = rng.randint(1, 3)
+        if x - w < 0:
+            break
+        h = rng.randint(1, H - h0)
+        regs.append([fl((x - F(w, 2)) * u), fl((H - F(h, 2)) * u), fl(w * u), fl(h * u), tags[len(regs) % 6]])
+        x -= w
     if bad and regs:
         r = list(regs[0]); r[4] = "X1"; r[0] = fl(F(r[0]) + u)
         regs.append(r)
@@ -126,9 +136,26 @@ def d_stog(rng: random.Random, f: F):
     return {"Modules": {"S": {"area": fl(sum(F(r[2]) * F(r[3]) for r in rl)), "rectangles": rl}}, "Nets": []}
 
 
+TAILS = [[(6, "b"), (5, "c"), (3, "d")], [(5, "b"), (3, "c"), (3, "d")], [(6, "b"), (3, "c"), (2, "d")]]
+
+
 def d_encode(rng: random.Random):
-    terms = [(rng.choice([-2, -1, 1, 2, 3]), rng.choice("abc"), rng.random() < 0.3) for _ in range(rng.randint(2, 3))]
-    return {"terms": terms, "bound": rng.randint(-2, 4), "op": rng.choice([">=", "<="]), "decomp": rng.random() < 0.5,
+    """an inequality over the generic variable names a, b, c, d (unrelated designs share variable NAMES, as the
+    b<i>_<cell> variables of tools/rect do).  Leading term on `a`, then one of three common tails and one of three
+    bounds, so that sub-constraints of different designs coincide and the shared diagram store is really exercised
+    (with and without coefficient decomposition)."""
+    if rng.random() < 0.7:
+        terms = [(rng.choice([7, 8, 9]), "a", False)] + [(c, v, False) for c, v in rng.choice(TAILS)]
+        bound = rng.choice([9, 10, 11])
+        op = ">="
+    else:
+        nt = rng.randint(2, 4)
+        vs = rng.sample("abcd", nt)
+        coefs = sorted((rng.choice([1, 2, 3, 3, 5, 6, 7]) for _ in range(nt)), reverse=True)
+        terms = [(c, v, rng.random() < 0.15) for c, v in zip(coefs, sorted(vs))]
+        bound = rng.randint(1, max(1, sum(coefs) - 1))
+        op = rng.choice([">=", "<="])
+    return {"terms": terms, "bound": bound, "op": op, "decomp": rng.random() < 0.5,
             "amo": rng.sample("abcd", rng.randint(0, 4)), "heule": rng.random() < 0.5}
 
 
@@ -243,7 +270,9 @@ def op_encode(d):
     for bits in range(16):
         assum = [(m.ttable[v] if (bits >> i) & 1 else -m.ttable[v]) for i, v in enumerate("abcd")]
         proj.append(int(s.solve(assumptions=assum)))
-    return [refused, sat, proj]
+    # the encoding itself, up to the names that legitimately vary (robdd_<id>, aux_<n>): size and shape of the CNF
+    shape = sorted(len(cl) for cl in m.clauses)
+    return [refused, sat, proj, m.tcount, len(m.clauses), shape]
 
 
 def op_legal(d):
@@ -267,6 +296,14 @@ def op_legal(d):
                 vec.append([g, [int(bool(e.is_equation_met())) for e in eqs]])
             for mac in model.gekko.macros:
                 vec.append(["macro", [[g, int(bool(e.is_equation_met()))] for g, e in mac.get_constraints(model.gekko)]])
+            # what the model knows about itself: its variables (names), groups and the value of its objective
+            vec.append(["variables", sorted(str(v.data.get("name")) for v in model.gekko.variable_list)])
+            vec.append(["groups", sorted((g, len(eqs)) for g, eqs in model.gekko.constraints.items())])
+            try:
+                vec.append(["objective", repr(float(model.gekko.objective.evaluate())),
+                            repr(float(model.gekko.dif_cost_objective().evaluate()))])
+            except Exception as e:
+                vec.append(["objective", type(e).__name__])
         return vec
     finally:
         tempfile.tempdir = old
@@ -333,6 +370,14 @@ def run(ctx: Ctx) -> int:
         for g in gen:
             hist = [[h[0], h[1], rng.randrange(10 ** 6)] for h in g["hist"]]
             behaviours.append({"hist": hist, "probe": g["probe"], "pseed": rng.randrange(300)})
+        # same-subsystem histories: most leak channels are shared by operations of one kind (the tolerance registers by
+        # the loaders, the diagram store by encodings, the expression-tree globals by legaliser models)
+        loaders = ["netlist", "die", "alloc", "stog", "legal"]
+        for k in KINDS:
+            for _ in range(60 if tier == "quick" else 600):
+                prev = loaders if k in loaders else [k]
+                hist = [[rng.choice(prev), rng.choice([0, 0, 1, 2, 3, 4, 4]), rng.randrange(10 ** 6)] for _ in range(rng.randint(1, 3))]
+                behaviours.append({"hist": hist, "probe": k, "pseed": rng.randrange(300)})
         # longer random histories than TLC enumerates
         for _ in range(300 if tier == "quick" else 4000):
             hist = [[rng.choice(KINDS), rng.randrange(5), rng.randrange(10 ** 6)] for _ in range(rng.randint(3, 6))]
